@@ -205,7 +205,7 @@ where
                             if OSC_TERMINATORS.contains(&accu.as_str()) {
                                 break 'param_loop;
                             } else {
-                                param.push(accu.chars().next().unwrap());
+                                param.push_str(&accu);
                             }
                         }
 
@@ -332,7 +332,7 @@ where
                             if OSC_TERMINATORS.contains(&accu.as_str()) {
                                 break 'param_loop;
                             } else {
-                                param.push(accu.chars().next().unwrap());
+                                param.push_str(&accu);
                             }
                         }
 
